@@ -39,8 +39,10 @@ class DataSet(SimpleNamespace):
 
 
 def gen_dataset(rng, system=None, nv=None, nq=None, natoms=None, lattice=None, data_class="power-law", components="needed",
-                static_from_subspace=True):
+                static_volumes=None):
     system = system or str(rng.choice(laue.SYSTEMS))
+    if static_volumes is None:
+        static_volumes = str(rng.choice(["same", "independent", "same-count-shifted"]))
     nv = int(rng.integers(4, 13)) if nv is None else nv
     nq = int(rng.integers(1, 9)) if nq is None else nq
     natoms = int(rng.integers(1, 11)) if natoms is None else natoms
@@ -81,7 +83,13 @@ def gen_dataset(rng, system=None, nv=None, nq=None, natoms=None, lattice=None, d
     pert = pert / (numpy.abs(pert).max() + 1e-30) * rng.uniform(5, 40)
     slope = B @ rng.normal(size=B.shape[1])
     slope = slope / (numpy.abs(slope).max() + 1e-30) * rng.uniform(0, 30)
-    comp = (v0 / volumes - 1.0)[:, None]
+    # the static table has its own volume column: the same volumes as the phonon file, or an independent set
+    if static_volumes == "same":
+        svol = volumes.copy()
+    else:
+        ns = int(rng.integers(4, 13)) if static_volumes == "independent" else nv
+        svol = numpy.sort(v0 * numpy.linspace(1.10, 0.76, ns) * (1 + rng.uniform(-0.01, 0.01, ns)))[::-1].copy()
+    comp = (v0 / svol - 1.0)[:, None]
     table = (base + pert)[None, :] * (1 + 3.5 * comp + 2.0 * comp ** 2) + slope[None, :] * comp       # (nv, 21) GPa
     nonzero = [n for n in range(21) if numpy.any(B[n, :])]
     if components == "needed":
@@ -101,12 +109,12 @@ def gen_dataset(rng, system=None, nv=None, nq=None, natoms=None, lattice=None, d
         s = rng.permutation([0.2, 0.3, 0.5]) + rng.uniform(-0.03, 0.03, 3)
         s = s / s.sum()
         a0 = rng.uniform(3, 12, 3)
-        lat = a0[None, :] * (volumes[:, None] / v0) ** s[None, :]
+        lat = a0[None, :] * (svol[:, None] / v0) ** s[None, :]
         lat_s = s
     cellmass = float(rng.uniform(40, 600))
     return DataSet(system=system, nv=nv, nq=nq, natoms=natoms, np=np_, v0=v0, k0=k0, kp=kp, e0=e0, volumes=volumes, energies=energies,
                    spec=spec, freqs=freqs, qcoords=qcoords, weights=weights, table_gpa=table, columns=cols, lattice=lat, lattice_exponents=lat_s,
-                   cellmass=cellmass, data_class=data_class, static_volumes=volumes.copy())
+                   cellmass=cellmass, data_class=data_class, static_volumes=svol)
 
 
 def _needed_subset(rng, system, nonzero):
